@@ -390,7 +390,8 @@ func (c *c16) l2Histories(n, steps int) {
 		}
 		// the validator world is only the state generator here: its own (C13) clauses go to a scratch run
 		scratch := mon.NewRun("C16-scratch", "quick", 0, "exploration")
-		w := newValWorld(scratch, "aux", gen, uint32(4+rng.Intn(4)), uint32(rng.Intn(4)))
+		// a third of the chains has not registered its bridge info yet (deposits are finalized without it)
+		w := newValWorldOpts(scratch, "aux", L2EnvOpts{GenesisVals: gen, MaxValidators: uint32(4 + rng.Intn(4)), Historical: uint32(rng.Intn(4)), NoBridgeInfo: h%3 == 1})
 		if rng.Bool() {
 			w.e.EnableShadow(rng.U64())
 		}
@@ -478,7 +479,11 @@ func (c *c16) l2Histories(n, steps int) {
 						ls = append(ls, a.String())
 					}
 				}
-				if w.setParams(func(p *opchildtypes.Params) { p.BridgeExecutors = ls; p.HistoricalEntries = uint32(rng.Intn(4)) }, "rotate executors").Class == sim.OK {
+				if w.setParams(func(p *opchildtypes.Params) {
+					p.BridgeExecutors = ls
+					p.HistoricalEntries = uint32(rng.Intn(4))
+					p.HookMaxGas = mon.Pick(rng, []uint64{0, 1, 50_000, opchildtypes.DefaultHookMaxGas, 3_000_000}) // 0 = hooks disabled
+				}, "rotate executors").Class == sim.OK {
 					execs = list
 				}
 			default:
